@@ -36,9 +36,9 @@ WriteAtPos(data, pos, b) ==
 Read(st, c) ==
     LET h == H(st, c)   data == Node(st, c).data
         m == Max(0, Min(c.n, Len(data) - h.off)) IN
-    IF h.dir THEN Fail("EISDIR", st)
+    IF c.n = 0 THEN Ok(st)         \* an empty buffer is answered before the descriptor is looked at
+    ELSE IF h.dir THEN Fail("EISDIR", st)
     ELSE IF ~h.rd THEN Fail("EBADF", st)
-    ELSE IF c.n = 0 THEN Ok(st)
     ELSE IF m = 0 THEN Fail("EOF", st)
     ELSE Ret([R0 EXCEPT !.n = m, !.data = SubSeq(data, h.off + 1, h.off + m)],
              SetH(st, c, [h EXCEPT !.off = @ + m]))
@@ -47,9 +47,9 @@ ReadAt(st, c) ==
     LET h == H(st, c)   data == Node(st, c).data
         m == Max(0, Min(c.n, Len(data) - c.off)) IN
     IF c.off < 0 THEN Fail("NEGOFF", st)
+    ELSE IF c.n = 0 THEN Ok(st)
     ELSE IF h.dir THEN Fail("EISDIR", st)
     ELSE IF ~h.rd THEN Fail("EBADF", st)
-    ELSE IF c.n = 0 THEN Ok(st)
     ELSE Ret([R0 EXCEPT !.err = IF m < c.n THEN "EOF" ELSE "ok", !.n = m,
                         !.data = IF m = 0 THEN <<>> ELSE SubSeq(data, c.off + 1, c.off + m)], st)
 
@@ -64,8 +64,8 @@ Write(st, c) ==
 
 WriteAt(st, c) ==
     LET h == H(st, c)   data == Node(st, c).data IN
-    IF c.off < 0 THEN Fail("NEGOFF", st)
-    ELSE IF h.app THEN Fail("EAPPENDAT", st)
+    IF h.app THEN Fail("EAPPENDAT", st)
+    ELSE IF c.off < 0 THEN Fail("NEGOFF", st)
     ELSE IF h.dir \/ ~h.wr THEN Fail("EBADF", st)
     ELSE IF c.data = <<>> THEN Ok(st)
     ELSE Ret([R0 EXCEPT !.n = Len(c.data)],
@@ -75,7 +75,8 @@ Seek(st, c) ==
     LET h == H(st, c)
         size == IF h.dir THEN 0 ELSE Len(Node(st, c).data)
         new == CASE c.wh = 0 -> c.off [] c.wh = 1 -> h.off + c.off [] c.wh = 2 -> size + c.off [] OTHER -> -1 IN
-    IF c.wh \notin {0, 1, 2} \/ new < 0 THEN Fail("EINVAL", st)
+    \* (whence 3 and 4 are SEEK_DATA / SEEK_HOLE on Linux and are not modelled; a directory cannot seek from its end)
+    IF c.wh \notin {0, 1, 2} \/ new < 0 \/ (h.dir /\ c.wh = 2) THEN Fail("EINVAL", st)
     ELSE Ret([R0 EXCEPT !.n = new],
              SetH(st, c, [h EXCEPT !.off = new, !.dstart = IF h.dir /\ new = 0 THEN FALSE ELSE @,
                                    !.dleft = IF h.dir /\ new = 0 THEN {} ELSE @]))
@@ -135,6 +136,8 @@ FReadDirOutcomes(st, c) ==
         left == DirLeft(st, c)
         k == IF c.n <= 0 THEN Cardinality(left) ELSE Min(c.n, Cardinality(left)) IN
     IF ~h.dir THEN {Fail("ENOTDIR", st)}
+    \* a removed directory cannot be read any more (entries already buffered by an earlier read still come)
+    ELSE IF h.ino \notin Reachable(st) /\ (~h.dstart \/ left = {}) THEN {Fail("ENOENT", st)}
     ELSE IF c.n > 0 /\ left = {} THEN
         {Ret([R0 EXCEPT !.err = "EOF"], SetH(st, c, [h EXCEPT !.dstart = TRUE, !.dleft = {}]))}
     ELSE {Ret([R0 EXCEPT !.n = k, !.names = S],
@@ -173,8 +176,14 @@ Apply(st, c) == IF c.op \in HOps THEN HApply(st, c) ELSE NsApply(st, c)
 StrictOutcomes(st, c) ==
     IF c.op \in {"freaddir", "freaddirnames"} /\ ValidH(st, c) /\ H(st, c).open
         THEN FReadDirOutcomes(st, c)
-    ELSE IF c.op \in {"readat", "writeat"} /\ ValidH(st, c) /\ ~H(st, c).open /\ c.off < 0
-        THEN {Fail("CLOSED", st), Fail("NEGOFF", st)}
+    ELSE IF c.op \in {"readat", "writeat"} /\ ValidH(st, c) /\ ~H(st, c).open
+        \* the property says "closed-file error"; os.File checks its arguments before the descriptor:
+        \* both answers are admitted in that corner
+        THEN {Fail("CLOSED", st)}
+             \cup (IF c.op = "writeat" /\ H(st, c).app THEN {Fail("EAPPENDAT", st)}
+                   ELSE IF c.off < 0 THEN {Fail("NEGOFF", st)}
+                   ELSE IF c.op = "readat" /\ c.n = 0 THEN {Ok(st)}
+                   ELSE {})
     ELSE {Apply(st, c)}
 
 (***************************************************************************)
